@@ -36,4 +36,4 @@ PENDING = ('insert_element_at',)   # does not terminate within budget yet (reall
 
 
 def check(tier):
-    return vlib.run_property('C19', [j for j in jobs() if j.name not in PENDING], tier, LEVEL, UNDECIDED)
+    return vlib.run_property('C19', [j for j in jobs() if j.name not in PENDING or __import__('os').environ.get('VERIF_JOBS')], tier, LEVEL, UNDECIDED)
